@@ -161,6 +161,18 @@ func (x *Exec) binop(op token.Token, a, b Value, rt types.Type, pc *Term, pos to
 		}
 		fail("unsupported string operator %s", op)
 	}
+	if _, isSlice := t.Underlying().(*types.Slice); isSlice && (op == token.EQL || op == token.NEQ) {
+		// slices compare with nil only: nil iff the data pointer is nil
+		o := a
+		if a.C[0].IsInt() && a.C[0].Int.Sign() == 0 {
+			o = b
+		}
+		r := Eq(o.C[0], Num(0))
+		if op == token.NEQ {
+			r = Not(r)
+		}
+		return one(r)
+	}
 	switch op {
 	case token.EQL:
 		return one(valueEq(a, b))
@@ -496,7 +508,7 @@ func (f *frame) step(in ssa.Instruction, n *node, st *State) *State {
 	case *ssa.MakeChan:
 		sz := f.get(i.Size, n, st).One()
 		ref := st.newRef()
-		x.chanInit(st, ref, sz)
+		x.chanInit(st, i.Type(), ref, sz)
 		set(i, Value{C: []*Term{ref}})
 	case *ssa.Send:
 		return f.chanSend(i, n, st)
